@@ -442,6 +442,8 @@ func runC08(c *engine.Ctx) {
 
 	// ---- R6 wrapper stacks (shared with C01.R1 / C05.R5) ----
 	checkStacks(c, "R6")
+	// ---- R7 pooled codec recycling (shared with C01.R8): a visitor stream handed to the proxy's listener outlives NewConn ----
+	checkRecycle(c, "R7")
 }
 
 func allAnon(f *ssa.Function) []*ssa.Function {
